@@ -1,10 +1,19 @@
 #!/bin/bash
-# usage: try_mutant.sh <patchfile> <check ids...>   applies patch to /repo, runs quick checks, reverts
+# usage: try_mutant.sh <patchfile|-R:commit> <check ids...>
+# Applies the patch to a PRIVATE copy of /repo/src (never to /repo), runs the quick checks against
+# it (VERIF_REPO_SRC), prints the verdict lines, removes the copy.  "-R:<commit>" reverts that
+# commit of /repo in the copy (used to show that a fixed defect would be reported again).
 set -u
 P=$1; shift
-git -C /repo apply "$P" || { echo "patch failed"; exit 3; }
+D=$(mktemp -d /tmp/mutsrc.XXXXXX)
+cp -r /repo/src "$D/src"
+if [[ "$P" == -R:* ]]; then
+  git -C /repo show "${P#-R:}" -- src | (cd "$D" && patch -R -p1 -s) || { echo "revert failed"; rm -rf "$D"; exit 3; }
+else
+  (cd "$D" && patch -p1 -s < "$P") || { echo "patch failed"; rm -rf "$D"; exit 3; }
+fi
 for id in "$@"; do
-  out=$(/verif/check $id --tier ${TIER:-quick} 2>&1); rc=$?
-  echo "== $id rc=$rc"; echo "$out" | grep -E "key=|VIOLATION|HARNESS|KNOWN" | head -${LINES_MAX:-6}
+  out=$(VERIF_REPO_SRC="$D/src" VERIF_EVIDENCE_DIR="$D/evidence" /verif/check $id --tier ${TIER:-quick} 2>&1); rc=$?
+  echo "== $id rc=$rc"; echo "$out" | grep -E "key=|HARNESS|KNOWN|Error" | cut -c1-${WIDTH:-260} | head -${LINES_MAX:-6}
 done
-git -C /repo checkout -- .
+rm -rf "$D"
